@@ -404,3 +404,34 @@ Fixpoint pair_handles (bytes : list N) : list N :=
   | lo :: hi :: t => (lo + 256 * hi) :: pair_handles t
   | _ => []
   end.
+
+(* requests whose response the monitors scan for handles (Read By Type, Read Multiple) *)
+Definition scanned_in (o : srv_op) : bool :=
+  match o with
+  | OpIn _ (op :: _) _ => (op =? 8) || (op =? 14)
+  | _ => false
+  end.
+Definition is_out (o : srv_op) : bool := match o with OpOut _ _ => true | _ => false end.
+
+(* a monitor over the reference semantics: dead (None) after a FAULT - memory safety is C01's clause, and the
+   implementation's process is gone (the remaining outputs are SKIPPED) *)
+Definition mon := option astate.
+Definition minit (c : cfg) : mon := Some (ainit c).
+Definition mstep_with (judge : cfg -> astate -> srv_op -> expect -> srv_out -> verdict)
+           (c : cfg) (m : mon) (o : srv_op) (r : srv_out) : verdict * mon :=
+  match m, r with
+  | Some a, OFault => (Ok, None)
+  | Some a, _ => let '(a', x) := astep c a o in (judge c a o x r, Some a')
+  | None, _ => (Ok, None)
+  end.
+
+Fixpoint monitor_from_with (judge : cfg -> astate -> srv_op -> expect -> srv_out -> verdict)
+         (c : cfg) (m : mon) (pos : nat) (tr : list (srv_op * srv_out)) : option (nat * nat) :=
+  match tr with
+  | [] => None
+  | (o, r) :: t =>
+      match mstep_with judge c m o r with
+      | (Ok, m') => monitor_from_with judge c m' (S pos) t
+      | (Bad tag, _) => Some (pos, tag)
+      end
+  end.
